@@ -115,6 +115,12 @@ func Main(props map[string]Property) {
 		os.Exit(cmdLog(props, os.Args[2:]))
 	case "minimise":
 		os.Exit(cmdMinimise(props, os.Args[2:]))
+	case "units":
+		if len(os.Args) >= 4 && props[os.Args[2]] != nil {
+			fmt.Println(props[os.Args[2]].Units(os.Args[3], seedFromEnv()))
+			os.Exit(0)
+		}
+		os.Exit(ExitInfra)
 	default:
 		fmt.Fprintln(os.Stderr, "unknown subcommand", os.Args[1])
 		os.Exit(ExitInfra)
